@@ -108,11 +108,11 @@ def families(tier):
         pre += ["size >= 6", "m1 == 3", "sa == 0 or n == 0", "b1 <= 2", "b2 <= 2", "sw == 0 or (p1 == 3 and p2 == 4)"]
         parts = parts_product(p1=range(5), p2=(0, 1, 4), m2=(0, 2))
     else:
-        pre += ["sa == 0 or n == 0", "size >= 3", "m1 >= 3", "b1 <= 3", "b2 <= 3"]
-        parts = parts_product(m1=(3, 4), p1=range(5), p2=range(5), m2=range(3))
+        pre += ["sa == 0 or n == 0", "size >= 3", "m1 >= 3", "b1 <= 3", "b2 <= 3", "sw == 0 or (p1 == 3 and p2 == 4)"]
+        parts = parts_product(m1=(3, 4), p1=range(5), p2=(0, 1, 3, 4), m2=(0, 2))
     PA = P[:-1]
     prea = [q for q in pre if "sw" not in q] + ["size >= %d" % AGE]
-    partsa = parts_product(p1=(0, 1, 3, 4), p2=(0, 4, 5), m2=(0, 2)) if not thorough else parts_product(m1=(3, 4), p1=range(6), p2=(0, 1, 4, 5), m2=range(3))
+    partsa = parts_product(p1=(0, 1, 3, 4), p2=(0, 4, 5), m2=(0, 2)) if not thorough else parts_product(m1=(3,), p1=range(6), p2=(0, 1, 4, 5), m2=(0, 2))
     return [Family(name="stop", fn="tpl_stop", params=P, pre=pre, parts=parts,
                    twin_pre=["m1 == 3", "p1 == 0", "p2 == 4", "m2 == 2", "sa == 0"], twin_args=[9, 3, 0, 1, 4, 0, 2, 0, 2, 0]),
             Family(name="stopaged", fn="tpl_stopaged", params=PA, pre=prea, parts=partsa,
